@@ -1,6 +1,8 @@
 (* Props/Properties_C13.v — C13: pika::thread and jthread: join waits for completion.
    Only statements; each is closed by [exact] of a lemma from Proofs/JoinProofs.v.
-   Model: Model/Join.v, code after the `fix:` commit for F13 (lp = true), over the agent
+   Model: Model/Join.v, code after the `fix:` commits for F13 (lp = true: join loops on a per-call
+   completion flag) and for the exit-callback loop (pf = true: a callback is taken out of the list
+   under the lock before it is invoked), over the agent
    contract of Base/Agent.v: any task may resume any other task at any time (AResume), so a
    suspension may return spuriously; tokens left by resumes aimed at a running task are kept.
    Every task count n, every program, every schedule. *)
@@ -12,7 +14,7 @@ Import ListNotations.
    (all of them: ran/terminated, or at least the one registered by this join) — unguarded:
    holds although suspensions may return spuriously *)
 Theorem C13_join_after_body : forall tgt h0 n progs sched t k,
-  let g := fst (jrun true tgt h0 n progs sched) in
+  let g := fst (jrun true true tgt h0 n progs sched) in
   In (EJoinRet t k) (log g) ->
   bdone g (tgt t k) = true /\
   (ran g (tgt t k) = true \/ term g (tgt t k) = true \/ cbrun g t (tgt t k) = true).
@@ -21,29 +23,29 @@ Print Assumptions C13_join_after_body.
 
 (* after join or detach the handle is not joinable (and never becomes joinable again) *)
 Theorem C13_not_joinable_after : forall tgt h0 n progs sched t k,
-  let g := fst (jrun true tgt h0 n progs sched) in
+  let g := fst (jrun true true tgt h0 n progs sched) in
   In (EJoinRet t k) (log g) \/ In (EDetach t k) (log g) -> hid g t k = false.
 Proof. exact not_joinable_after. Qed.
 Print Assumptions C13_not_joinable_after.
 
 (* joining twice / after detach: reported as an error (invalid_status), state unchanged *)
-Theorem C13_double_join_error : forall lp tgt t k g rest,
+Theorem C13_double_join_error : forall lp pf tgt t k g rest,
   blocked (ag g t) = false -> hid g t k = false ->
-  tstep lp tgt tt t g (mkL PBody (AJoin k :: rest)) = (w_log g (EErr t k NotJoinable), mkL PBody rest).
+  tstep lp pf tgt tt t g (mkL PBody (AJoin k :: rest)) = (w_log g (EErr t k NotJoinable), mkL PBody rest).
 Proof. exact double_join_error. Qed.
 Print Assumptions C13_double_join_error.
 
 (* joining oneself: reported as an error (thread_resource_error), state unchanged *)
-Theorem C13_self_join_error : forall lp tgt t k g rest,
+Theorem C13_self_join_error : forall lp pf tgt t k g rest,
   blocked (ag g t) = false -> hid g t k = true -> tgt t k = t ->
-  tstep lp tgt tt t g (mkL PBody (AJoin k :: rest)) = (w_log g (EErr t k SelfJoin), mkL PBody rest).
+  tstep lp pf tgt tt t g (mkL PBody (AJoin k :: rest)) = (w_log g (EErr t k SelfJoin), mkL PBody rest).
 Proof. exact self_join_error. Qed.
 Print Assumptions C13_self_join_error.
 
 (* ~jthread returned (for a joinable jthread)  ==>  stop was requested, the body has returned,
    the handle is not joinable *)
 Theorem C13_jthread_dtor_stops_and_joins : forall tgt h0 n progs sched t k,
-  let g := fst (jrun true tgt h0 n progs sched) in
+  let g := fst (jrun true true tgt h0 n progs sched) in
   In (EDtorRet t k) (log g) ->
   stopreq g (tgt t k) = true /\ bdone g (tgt t k) = true /\ hid g t k = false.
 Proof. exact jthread_dtor_stops_and_joins. Qed.
@@ -53,41 +55,41 @@ Print Assumptions C13_jthread_dtor_stops_and_joins.
    explicit point, join entry, before and after a suspension), only while interruption is
    enabled, and only in a task for which some interrupt request was accepted *)
 Theorem C13_interrupt_only_at_points_when_enabled : forall tgt h0 n progs sched t p e,
-  let g := fst (jrun true tgt h0 n progs sched) in
+  let g := fst (jrun true true tgt h0 n progs sched) in
   In (EIntrAt t p e) (log g) -> e = true /\ exists r, In (EIntrReq r t) (log g).
 Proof. exact interrupt_only_when_enabled_and_requested. Qed.
 Print Assumptions C13_interrupt_only_at_points_when_enabled.
 
 (* an interrupt request changes only the target's request flag (and the log), its wake-up only
    the target's agent; while disabled it is refused *)
-Theorem C13_interrupt_is_local : forall lp tgt t u g rest,
+Theorem C13_interrupt_is_local : forall lp pf tgt t u g rest,
   blocked (ag g t) = false ->
   (en g u = true ->
-     tstep lp tgt tt t g (mkL PBody (AIntr u :: rest)) =
+     tstep lp pf tgt tt t g (mkL PBody (AIntr u :: rest)) =
        (w_log (w_req g (set1 (req g) u true)) (EIntrReq t u), mkL (PIntrWake u) rest)) /\
   (en g u = false ->
-     tstep lp tgt tt t g (mkL PBody (AIntr u :: rest)) = (w_log g (EIntrRefused t u), mkL PBody rest)) /\
-  tstep lp tgt tt t g (mkL (PIntrWake u) rest) = (w_ag g (set1 (ag g) u (a_resume (ag g u))), mkL PBody rest).
+     tstep lp pf tgt tt t g (mkL PBody (AIntr u :: rest)) = (w_log g (EIntrRefused t u), mkL PBody rest)) /\
+  tstep lp pf tgt tt t g (mkL (PIntrWake u) rest) = (w_ag g (set1 (ag g) u (a_resume (ag g u))), mkL PBody rest).
 Proof.
-  exact (fun lp tgt t u g rest Hb =>
-    conj (interrupt_is_local_req lp tgt t u g rest Hb)
-      (conj (interrupt_refused_when_disabled lp tgt t u g rest Hb) (interrupt_is_local_wake lp tgt t u g rest Hb))).
+  exact (fun lp pf tgt t u g rest Hb =>
+    conj (interrupt_is_local_req lp pf tgt t u g rest Hb)
+      (conj (interrupt_refused_when_disabled lp pf tgt t u g rest Hb) (interrupt_is_local_wake lp pf tgt t u g rest Hb))).
 Qed.
 Print Assumptions C13_interrupt_is_local.
 
 (* join() does return (safety form).  [stuck c]: no task can take a non-stutter step.
-   [inj_handles tgt h0]: a task is referred to by at most one valid handle (pika::thread is
-   move-only; two handles for one thread cannot exist).  [acyclic_targets tgt h0 n]: a valid handle
-   (t,k) refers to a task created later than t (t < tgt t k < n): no join cycles, no joins on
-   things that are not tasks.  In every reachable stuck state of the fixed code, for every task
-   count, program (bodies, yields, joins, detaches, ~jthread, interrupts, stale resumes by anybody
-   at any time = spurious returns of the suspension) and schedule — i.e. for all three orders of
-   the target's exit-callback run versus the joiner's add_thread_exit_callback / suspend —
-   nobody is blocked in join() and every task has terminated. *)
-Theorem C13_join_returns : forall tgt h0 n, inj_handles tgt h0 ->
-  forall progs sched, acyclic_targets tgt h0 n ->
-  let c := jrun true tgt h0 n progs sched in
-  stuck true tgt c ->
+   [acyclic_targets tgt h0 n]: a valid handle (t,k) refers to a task created later than t
+   (t < tgt t k < n): no join cycles, no joins on things that are not tasks.  In every reachable
+   stuck state of the fixed code, for every task count, program (bodies, yields, joins, detaches,
+   ~jthread, interrupts, try/catch of thread_interrupted followed by further joins, stale resumes by
+   anybody at any time = spurious returns of the suspension) and schedule — i.e. for all three
+   orders of the target's exit-callback run versus the joiner's add_thread_exit_callback / suspend —
+   nobody is blocked in join() and every task has terminated.  (Session c13e: the former hypothesis
+   inj_handles — one valid handle per thread — is no longer needed: after the second fix every
+   registered callback is invoked exactly once, however many there are.) *)
+Theorem C13_join_returns : forall tgt h0 n progs sched, acyclic_targets tgt h0 n ->
+  let c := jrun true true tgt h0 n progs sched in
+  stuck true true tgt c ->
   (forall t, blocked (ag (fst c) t) = false) /\ (forall t, t < n -> pc (snd c t) = PDone).
 Proof. exact join_returns. Qed.
 Print Assumptions C13_join_returns.
@@ -96,35 +98,93 @@ Print Assumptions C13_join_returns.
    in a stuck state sits in join()'s suspension on a valid handle whose target is not a task at
    all or is itself blocked in a join — never on a target that has finished or could still run.
    In particular a joiner is never left blocked by a target that ran its exit callbacks. *)
-Theorem C13_join_blocked_only_on_blocked_target : forall tgt h0 n, inj_handles tgt h0 ->
-  forall progs sched,
-  let c := jrun true tgt h0 n progs sched in
-  stuck true tgt c ->
+Theorem C13_join_blocked_only_on_blocked_target : forall tgt h0 n progs sched,
+  let c := jrun true true tgt h0 n progs sched in
+  stuck true true tgt c ->
   forall t, blocked (ag (fst c) t) = true ->
     exists k d, pc (snd c t) = PJoinWake k d /\ h0 t k = true /\
                 (pc (snd c (tgt t k)) = PIdle \/ blocked (ag (fst c) (tgt t k)) = true).
 Proof. exact join_blocked_only_on_blocked. Qed.
 Print Assumptions C13_join_blocked_only_on_blocked_target.
 
-(* why inj_handles is needed (E4 of the notes, API misuse only): two tasks joining the SAME target;
-   the second registers between the target's front()() and pop_front(); pop_front removes the new
-   entry; the second joiner is never resumed: stuck, task 1 blocked in join(), target PDone. *)
-Theorem C13_join_returns_shared_target_refuted :
-  let c := jrun true shared_tgt all_valid 3 shared_progs shared_sched in
-  stuck true shared_tgt c /\ blocked (ag (fst c) 1) = true /\ pc (snd c 1) = PJoinWake 0 false /\
-  pc (snd c 2) = PDone /\ pc (snd c 0) = PDone /\ bdone (fst c) 2 = true /\ flag (fst c) 1 2 = false.
-Proof. exact join_returns_shared_target_refuted. Qed.
-Print Assumptions C13_join_returns_shared_target_refuted.
+(* Join again after an interruption.  A joiner t that was interrupted inside join() (the
+   interruption points before/after the suspension throw thread_interrupted out of join(), the
+   handle stays joinable), catches it ([ACatch]) and calls join() again registers a SECOND exit
+   callback with its own completion flag ([gen g t] = number of registrations made by t, the flag
+   of the current one is [flag g t u (gen g t)]); the first, stale entry stays registered.
+   (1) In EVERY reachable state the current registration of a joiner that waits inside join()
+       — first or repeated, wherever the target is in its exit loop — is not lost: the flag is set
+       and t is runnable (with a token if it is about to suspend), or the entry (t, gen t) is still
+       in the target's list and the target's exit loop is not over, or the target holds exactly this
+       entry and is about to invoke it, or the target has set the flag and is about to resume t.
+   (2) Hence (acyclic targets) every reachable stuck state has nobody blocked and every task
+       terminated: the second join returns once the target has finished.
+   Stale callbacks only set their own flag and resume t spuriously (absorbed by the loop). *)
+Theorem C13_rejoin_after_interrupt_returns : forall tgt h0 n progs sched,
+  let c := jrun true true tgt h0 n progs sched in
+  (forall t k, waitpc (pc (snd c t)) = Some k ->
+     let g := fst c in let ls := snd c in let u := tgt t k in let cur := gen g t in
+     (flag g t u cur = true /\ blocked (ag g t) = false /\ (issusp (pc (ls t)) = true -> tok (ag g t) = true)) \/
+     (In (t, cur) (cbs g u) /\ postcb (pc (ls u)) = false) \/
+     pc (ls u) = PCbRun t cur \/
+     (pc (ls u) = PCbRes t /\ flag g t u cur = true)) /\
+  (acyclic_targets tgt h0 n -> stuck true true tgt c ->
+     (forall t, blocked (ag (fst c) t) = false) /\ (forall t, t < n -> pc (snd c t) = PDone)).
+Proof. exact rejoin_after_interrupt_returns. Qed.
+Print Assumptions C13_rejoin_after_interrupt_returns.
+
+(* regression witnesses for the second fix (code BEFORE it: pf = false).
+   Public API: task 0 `try { t.join(); } catch (thread_interrupted const&) {} t.join();`, task 1
+   interrupts task 0, task 2 is the target; the second registration lands between the target's
+   front()() and pop_front(): pop_front removes it, the stale callback is invoked twice, the flag of
+   the second join is never set: stuck with task 0 blocked in join() and the target terminated.
+   Replayed on the real code by harness/c13_join.cpp (mode rejoin, variant 0). *)
+Example C13_rejoin_unfixed_hangs :
+  let c := jrun true false rj_tgt rj_h0 3 rj_progs rj_sched in
+  stuck true false rj_tgt c /\ blocked (ag (fst c) 0) = true /\ pc (snd c 0) = PJoinWake 0 false /\
+  pc (snd c 2) = PDone /\ pc (snd c 1) = PDone /\ term (fst c) 2 = true /\
+  In (EIntrAt 0 IPSuspendPost true) (log (fst c)) /\ gen (fst c) 0 = 2 /\
+  flag (fst c) 0 2 1 = true /\ flag (fst c) 0 2 2 = false /\ ~ In (EJoinRet 0 0) (log (fst c)).
+Proof. exact rejoin_unfixed_hangs. Qed.
+(* the same programs and schedule on the fixed code *)
+Example C13_rejoin_fixed_returns :
+  let c := jrun true true rj_tgt rj_h0 3 rj_progs rj_sched in
+  stuck true true rj_tgt c /\ pc (snd c 0) = PDone /\ pc (snd c 1) = PDone /\ pc (snd c 2) = PDone /\
+  In (EIntrAt 0 IPSuspendPost true) (log (fst c)) /\ In (EJoinRet 0 0) (log (fst c)) /\ gen (fst c) 0 = 2 /\
+  flag (fst c) 0 2 1 = true /\ flag (fst c) 0 2 2 = true /\ hid (fst c) 0 0 = false /\
+  let c1 := jrun true true rj_tgt rj_h0 3 rj_progs (jp_sch (jp_rep 5 0 ++ jp_rep 4 2 ++ jp_rep 2 1 ++ jp_rep 9 0)) in
+  cbs (fst c1) 2 = [(0, 2)] /\ pc (snd c1 2) = PCbPop /\ blocked (ag (fst c1) 0) = true.
+Proof. exact rejoin_fixed_returns. Qed.
+(* the original code (before the F13 fix, lp = false, pf = false) returns on this schedule: every
+   callback just resumed the joiner, so the one invoked twice replaced the one dropped *)
+Example C13_rejoin_original_code_returns :
+  let c := jrun false false rj_tgt rj_h0 3 rj_progs rj_sched in
+  pc (snd c 0) = PDone /\ pc (snd c 2) = PDone /\ In (EJoinRet 0 0) (log (fst c)) /\ join_ok_b rj_tgt (fst c) = true.
+Proof. exact rejoin_original_code_returns. Qed.
+Example C13_rejoin_hyps : acyclic_targets rj_tgt rj_h0 3.
+Proof. exact rj_hyps. Qed.
+(* E4 in its small form (two joiners of one target, API misuse): strands the second joiner before
+   the second fix, returns after it *)
+Example C13_shared_target_unfixed_strands :
+  let c := jrun true false shared_tgt all_valid 3 shared_progs shared_sched in
+  stuck true false shared_tgt c /\ blocked (ag (fst c) 1) = true /\ pc (snd c 1) = PJoinWake 0 false /\
+  pc (snd c 2) = PDone /\ pc (snd c 0) = PDone /\ bdone (fst c) 2 = true /\ flag (fst c) 1 2 1 = false.
+Proof. exact shared_target_unfixed_strands. Qed.
+Example C13_shared_target_fixed_returns :
+  let c := jrun true true shared_tgt all_valid 3 shared_progs shared_sched in
+  stuck true true shared_tgt c /\ pc (snd c 0) = PDone /\ pc (snd c 1) = PDone /\ pc (snd c 2) = PDone /\
+  In (EJoinRet 0 0) (log (fst c)) /\ In (EJoinRet 1 0) (log (fst c)).
+Proof. exact shared_target_fixed_returns. Qed.
 
 (* non-vacuity: the hypotheses are satisfiable (chain 0 joins 1 joins 2) and a stuck state with
    everything terminated is reached after both joiners were blocked in join() *)
-Example C13_join_returns_hyps : inj_handles chain_tgt chain_h0 /\ acyclic_targets chain_tgt chain_h0 3.
+Example C13_join_returns_hyps : acyclic_targets chain_tgt chain_h0 3.
 Proof. exact chain_hyps. Qed.
 Example C13_join_returns_example :
-  let c := jrun true chain_tgt chain_h0 3 chain_progs chain_sched in
-  stuck true chain_tgt c /\ pc (snd c 0) = PDone /\ pc (snd c 1) = PDone /\ pc (snd c 2) = PDone /\
+  let c := jrun true true chain_tgt chain_h0 3 chain_progs chain_sched in
+  stuck true true chain_tgt c /\ pc (snd c 0) = PDone /\ pc (snd c 1) = PDone /\ pc (snd c 2) = PDone /\
   In (EJoinRet 0 0) (log (fst c)) /\ In (EJoinRet 1 0) (log (fst c)) /\
-  let c1 := jrun true chain_tgt chain_h0 3 chain_progs (jp_sch (jp_rep 5 0 ++ jp_rep 5 1)) in
+  let c1 := jrun true true chain_tgt chain_h0 3 chain_progs (jp_sch (jp_rep 5 0 ++ jp_rep 5 1)) in
   blocked (ag (fst c1) 0) = true /\ blocked (ag (fst c1) 1) = true.
 Proof. exact join_returns_example. Qed.
 
@@ -140,20 +200,20 @@ Definition sch (l : list nat) : list (nat * unit) := map (fun t => (t, tt)) l.
    (a notified timed wait leaves such a token), the joiner registers its callback, its single
    suspension returns at once, join returns while the target has not even started *)
 Example C13_F13_unfixed_early_return :
-  let g := fst (jrun false tg1 all1 3 progs3 (sch [2;0;0;0;0;0;0;0;0]%nat)) in
+  let g := fst (jrun false false tg1 all1 3 progs3 (sch [2;0;0;0;0;0;0;0;0]%nat)) in
   In (EJoinRet 0 0) (log g) /\ bdone g 1 = false /\ join_ok_b tg1 g = false.
 Proof. vm_compute. repeat split. now left. Qed.
 
 (* same schedule on the fixed code: the joiner re-checks the flag and blocks *)
 Example C13_F13_fixed_blocks :
-  let c := jrun true tg1 all1 3 progs3 (sch [2;0;0;0;0;0;0;0;0;0;0;0]%nat) in
+  let c := jrun true true tg1 all1 3 progs3 (sch [2;0;0;0;0;0;0;0;0;0;0;0]%nat) in
   log (fst c) = [] /\ blocked (ag (fst c) 0) = true /\ pc (snd c 0%nat) = PJoinWake 0 false.
 Proof. vm_compute. repeat split. Qed.
 
 (* the three orders, fixed code: callbacks ran before add (refused) / between add and suspend
    (token) / after suspend (normal wake-up); all tasks finish, monitor holds *)
 Example C13_three_orders :
-  let run s := round_robin true tg1 20 3 (jrun true tg1 all1 3 progs3 (sch s)) in
+  let run s := round_robin true true tg1 20 3 (jrun true true tg1 all1 3 progs3 (sch s)) in
   let ok c := all_done 3 c && join_ok_b tg1 (fst c) in
   ok (run [1;1;1;1;1;1;0;0;0]%nat) = true /\                       (* target done first *)
   ok (run [0;0;0;0;1;1;1;1;1;0]%nat) = true /\                     (* callback between add/check and suspend *)
